@@ -1179,12 +1179,17 @@ def run_shard(ctx):
     if state["i"] < ctx.n: ctx.extra["scripts_skipped_for_time"] = ctx.n - state["i"]
 
     # child processes with other hash seeds (two different ones per shard at least)
-    nb = 2 if len(for_child) <= 2000 else -(-len(for_child) // 2500)
+    # (never fewer than two batches: with one batch every child would run under the first salt only -- a round-6 seeded change
+    #  that folds str seeds with hash() was missed for exactly that reason when 2000 < len(for_child) <= 2500)
+    nb = max(2, -(-len(for_child) // 2500))
     size = -(-len(for_child) // nb) if for_child else 0
+    own = os.environ.get("PYTHONHASHSEED", "random")
     for b in range(nb):
         batch = for_child[b * size:(b + 1) * size]
         if not batch: continue
-        hs = ctx.rng.choice([1, 2, 12345, 4294967295, ctx.rng.randrange(1, 2**32)]) if b else 0
+        # every batch runs under a salt that differs from this process's own one
+        hs = ctx.rng.choice([h for h in (1, 2, 12345, 4294967295, ctx.rng.randrange(1, 2**32)) if str(h) != own]) if b else (0 if own != "0" else 7)
+        ctx.count("child.salt-differs-from-parent")
         report(check_child(hs, ctx.rng.randrange(10**6), batch, ctx), None)
 
     if ctx.tier == "thorough" and ctx.shard == 0:
